@@ -25,6 +25,7 @@ MISSING = {'missing': True}
 NEG_DEL_OK = [True]      # fixes/C09-F112.patch: `del l[-1]` reports the position (before: the key path [-1])
 _CLS = {}
 LOG = []
+BOUND = []      # ids of the objects whose overridden _on_bound ran
 OBJ_IDS = {}
 
 
@@ -45,6 +46,10 @@ def classes():
       def _on_change(self, field_updates):
         LOG.append((OBJ_IDS.get(id(self)), field_updates))
         return super()._on_change(field_updates)
+
+      def _on_bound(self):
+        BOUND.append(OBJ_IDS.get(id(self)))
+        super()._on_bound()
 
     class C09Req(pg.Object):          # a required field (partial values), for the facts stream
       allow_symbolic_assignment = True
@@ -68,7 +73,26 @@ def classes():
       o: pg.typing.Object(C09Inner).set_default(C09Inner())
       x: pg.typing.Any(default=None)
 
-    _CLS.update(sub=C09Sub, plain=C09Plain, mid=C09Mid, req=C09Req, pure=C09Pure, inner=C09Inner)
+    class C09InnerSub(C09Inner):      # typed objects that override the handlers
+      def _on_change(self, field_updates):
+        LOG.append((OBJ_IDS.get(id(self)), field_updates))
+        return super()._on_change(field_updates)
+
+      def _on_bound(self):
+        BOUND.append(OBJ_IDS.get(id(self)))
+        super()._on_bound()
+
+    class C09DefSub(C09Def):
+      def _on_change(self, field_updates):
+        LOG.append((OBJ_IDS.get(id(self)), field_updates))
+        return super()._on_change(field_updates)
+
+      def _on_bound(self):
+        BOUND.append(OBJ_IDS.get(id(self)))
+        super()._on_bound()
+
+    _CLS.update(sub=C09Sub, plain=C09Plain, mid=C09Mid, req=C09Req, pure=C09Pure, inner=C09Inner,
+                innersub=C09InnerSub, defsub=C09DefSub)
     _CLS['def'] = C09Def
   return _CLS
 
@@ -276,7 +300,8 @@ def build(t):
   elif t['k'] == 'dict':
     v = pg.Dict({k: build(c) for k, c in t['items']}, onchange_callback=cb)
   elif t['k'] in ('def', 'inner'):
-    v = cls[t['k']](**{k: build(c) for k, c in t['items']})
+    v = cls[t['k'] + ('sub' if t.get('sub') else '')](**{k: build(c) for k, c in t['items']})
+    OBJ_IDS[id(v)] = nid
   elif t['k'] == 'req':
     v = cls['req'].partial(**{k: build(c) for k, c in t['items'] if not (isinstance(c, dict) and c.get('missing'))})
   else:
@@ -327,6 +352,11 @@ def sym_nodes(v, path=()):
 FACTS = ['nondefault', 'missing', 'partial', 'pure', 'deterministic']
 
 
+def read_flags(names):
+  """(sym_nondefault is asked, sym_missing is asked -- is_partial asks it too)."""
+  return 'nondefault' in names, ('missing' in names or 'partial' in names)
+
+
 def facts(n, names=None):
   import pyglove as pg
   def j(x):
@@ -360,7 +390,72 @@ def recomputed(root):
   return [(p, facts(n)) for p, n in sym_nodes(copy)]
 
 
+# Value specs of the harness classes, as the model is told them (kept next to `classes()`):
+# class number, [[field, {'d': default} | {'req': True}], ...]
+_E_DEF = {'k': 'dict', 'c': 0, 'items': [['u', 2], ['w', None]]}
+_A_DEF = {'k': 'dict', 'c': 0, 'items': [['k', 1], ['j', None], ['e', _E_DEF]]}
+_D_DEF = {'k': 'dict', 'c': 0, 'items': [['a', _A_DEF], ['b', 0]]}
+_INNER_DEF = {'k': 'obj', 'c': 2, 'items': [['k', 1], ['m', None]]}
+CLASS_SPECS = {
+    'obj': (1, [['x', {'d': None}], ['y', {'d': None}], ['z', {'d': None}]]),
+    'inner': (2, [['k', {'d': 1}], ['m', {'d': None}]]),
+    'def': (3, [['d', {'d': _D_DEF}], ['o', {'d': _INNER_DEF}], ['x', {'d': None}]]),
+    'req': (4, [['r', {'req': True}], ['x', {'d': None}]]),
+}
+
+
+def annotate(t):
+  """Case tree -> the tree the model is given: object kinds become `obj` with class number and
+  schema; the Dicts below the field `d` of a `def` object are bound to the nested schema."""
+  if not is_node(t):
+    return t
+  out = dict(t)
+  out['items'] = [[k, annotate(c)] for k, c in t['items']]
+  if t['k'] in CLASS_SPECS:
+    c, sch = CLASS_SPECS[t['k']]
+    if t.get('sub') and t['k'] in ('def', 'inner'):
+      c += 10          # the subscribing variant is a subclass: another class than the one of the default
+    out.update(k='obj', c=c, sch=sch)
+    if t['k'] == 'def':
+      for it in out['items']:
+        if it[0] == 'd':
+          it[1] = _bind(it[1], _D_DEF)
+  return out
+
+
+def _bind(node, dv):
+  if not is_node(node) or node['k'] != 'dict':
+    return node
+  node = dict(node)
+  node['sch'] = [[k, {'d': v}] for k, v in dv['items']]
+  dd = dict((k, v) for k, v in dv['items'])
+  node['items'] = [[k, _bind(c, dd[k]) if isinstance(dd.get(k), dict) else c] for k, c in node['items']]
+  return node
+
+
+def keypath_keys(k):
+  import pyglove as pg
+  return pg.KeyPath.parse(k).keys if isinstance(k, str) else [k]
+
+
+def read_values(n, nd=True, miss=True):
+  """What a read reports: flattened sym_nondefault() as [[relative path, canonical value]] and the
+  flattened sym_missing() as paths."""
+  a = sorted(([keypath_keys(k), canon(x)] for k, x in n.sym_nondefault().items()), key=json.dumps) if nd else []
+  b = sorted((keypath_keys(k) for k in n.sym_missing()), key=json.dumps) if miss else []
+  return a, b
+
+
 def leafmap_reads(root):
+  """[path, nondefault, missing] of every symbolic node."""
+  out = []
+  for p, n in sym_nodes(root):
+    a, b = read_values(n)
+    out.append([p, a, b])
+  return sorted(out, key=lambda e: json.dumps(e))
+
+
+def _old_leafmap_reads(root):
   """(path, flattened sym_nondefault) of the Dict/List nodes whose subtree holds no pg.Object."""
   import pyglove as pg
   out = []
@@ -677,8 +772,9 @@ class C09(Prop):
           'A chosen-reads stream (700 histories): derived facts are read only at chosen nodes at chosen moments '
           '(read steps; model: readAt), interleaved with notified and silent writes (notify_on_change(False), '
           'rebind(skip_notification=True), Dict.update) two or more levels below, every history ending with a read of '
-          'everything; the same on typed trees (500 histories, oracle-only) whose objects have schema-bound nested '
-          'Dict / object fields with defaults, so that sym_nondefault() is a snapshot memoised at the object only. '
+          'everything; the same on typed trees (500 histories) whose objects have schema-bound nested '
+          'Dict / object fields with defaults and required fields, so that sym_nondefault() is a snapshot memoised at '
+          'the object only -- reads (sym_nondefault, sym_missing) are compared with the model on all of them. '
           'Object classes form the hierarchy Plain -> Mid -> Sub (only Sub overrides _on_change) and are created '
           'afresh for every case. A second, oracle-only stream inserts partial objects, pure-symbolic and non-deterministic values. '
           'Non-trivial: some node on the path from the root to a written location subscribes; distinct by JSON.')
@@ -687,7 +783,10 @@ class C09(Prop):
       'JSON round trip pg.from_json(pg.to_json(root)) as the reference for "fresh computation"',
       'modelled, not verified: grouping / ordering / cache reset of _notify_field_updates, the write primitive and '
       'the cache-consulting recomputation of sym_nondefault (tied by correspondence); the three memoised facts are '
-      'one cache in the model; notify_parents=False, handlers that mutate during notification, _on_parent_change / '
+      'two memos per node (nondefault, missing) against the value specs of the harness classes (fields with '
+      'defaults incl. container / object defaults, required fields, schema-bound nested Dicts); the memo of a '
+      'schema-bound node is modelled as a flattened snapshot; _sym_puresymbolic / is_deterministic are oracle-only; '
+      'writes whose value a spec would transform or reject are not generated (C03); notify_parents=False, handlers that mutate during notification, _on_parent_change / '
       '_on_path_change and value specs are outside the model; a shrinking slice assignment inside '
       'notify_on_change(False) leaves MISSING_VALUE placeholders (known finding C02-F03) and is neither generated '
       'nor modelled',
@@ -762,25 +861,39 @@ class C09(Prop):
       yield {'tree': t, 'steps': steps, 'reads': 'chosen'}
 
   def typed_read_cases(self, rng, n):
-    """Oracle-only (value specs are outside the model): the chosen-reads histories of `read_cases` on
+    """The chosen-reads histories of `read_cases` on
     trees that hold objects whose fields are schema-bound nested Dicts / objects with defaults -- their
     sym_nondefault() is a snapshot computed by diffing against the defaults and memoised at the object
     only, so the nodes between it and a later write memoise nothing."""
     g = Gen(rng)
     def tdict(items):
       return {'k': 'dict', 'id': 0, 'sub': False, 'typed': True, 'items': items}
+    ctr = [100]
+    def nid():
+      ctr[0] += 1
+      return ctr[0]
+    def req_node():
+      return {'k': 'req', 'id': 0, 'sub': False, 'typed': True,
+              'items': [['r', MISSING if rng.chance(0.5) else rng.randint(0, 5)], ['x', g.atom()]]}
+    def tatom(key):
+      return rng.randint(0, 9) if key == 'r' else g.atom()      # `r` is an Int field
     def def_node(depth):
-      x = g.atom() if depth <= 0 or rng.chance(0.5) else (def_node(depth - 1) if rng.chance(0.5) else g.tree(1, None, 0.3))
-      return {'k': 'def', 'id': 0, 'sub': False, 'typed': True, 'items': [
+      if depth <= 0 or rng.chance(0.4):
+        x = g.atom() if rng.chance(0.7) else req_node()
+      else:
+        k_ = rng.below(3)
+        x = def_node(depth - 1) if k_ == 0 else (g.tree(1, None, 0.3) if k_ == 1 else g.tree(1, 'list', 0.5))
+      return {'k': 'def', 'id': nid(), 'sub': rng.chance(0.5), 'typed': True, 'items': [
           ['d', tdict([['a', tdict([['k', g.atom()], ['j', g.atom()], ['e', tdict([['u', g.atom()], ['w', g.atom()]])]])],
                        ['b', g.atom()]])],
-          ['o', {'k': 'inner', 'id': 0, 'sub': False, 'typed': True,
+          ['o', {'k': 'inner', 'id': nid(), 'sub': rng.chance(0.4), 'typed': True,
                  'items': [['k', g.atom()], ['m', g.atom() if rng.chance(0.5) else g.tree(1, 'dict', 0.3)]]}],
           ['x', x]]}
     for _ in range(n):
       g.next_id = 1
       g.no_obj = False
-      inner = def_node(rng.below(2))
+      ctr[0] = 100
+      inner = def_node(rng.below(3))
       wrap = rng.below(4)
       if wrap == 0:
         t = inner
@@ -802,16 +915,21 @@ class C09(Prop):
           continue
         typed = [pn for pn in nodes if pn[1].get('typed')]
         path, node = rng.choice(typed if typed and rng.chance(0.8) else nodes)
-        if node.get('typed'):
-          leaves = [k for k, c in node['items'] if not is_node(c)]
+        if node.get('typed') or any(x.get('typed') for _, x in all_nodes(node)):
+          # a value spec governs (part of) what is below: only leaves of typed nodes are written, with
+          # values their fields accept (what a spec does to other values is C03's business)
+          leaves = [k for k, c in node['items'] if not is_node(c)] if node.get('typed') else []
           below = [(list(p) + [k]) for p, x in all_nodes(node) if x.get('typed') for k, c in x['items'] if not is_node(c)]
           kind = rng.below(3)
           if kind == 0 and leaves:
-            call = {'name': 'setkey', 'key': rng.choice(leaves), 'v': g.atom()}
+            k_ = rng.choice(leaves)
+            call = {'name': 'setkey', 'key': k_, 'v': tatom(k_)}
           elif kind == 1 and leaves and node['k'] == 'dict':
-            call = {'name': 'update', 'kvs': [[k, g.atom()] for k in rng.sample(leaves, rng.randint(1, len(leaves)))]}
+            call = {'name': 'update', 'kvs': [[k, tatom(k)] for k in rng.sample(leaves, rng.randint(1, len(leaves)))]}
           elif below:
-            call = {'name': 'rebind', 'pairs': [[p, g.atom()] for p in rng.sample(below, rng.randint(1, min(3, len(below))))]}
+            call = {'name': 'rebind', 'pairs': [[p, tatom(p[-1])] for p in rng.sample(below, rng.randint(1, min(3, len(below))))]}
+            if node['k'] == 'list':
+              call['pairs'].sort(key=lambda pv: key_cmp_tuple(pv[0]))     # the order in which List reports its updates
             if rng.chance(0.5):
               call['skip'] = True
           else:
@@ -826,7 +944,7 @@ class C09(Prop):
       if not any('call' in s_ for s_ in steps):
         continue
       steps.append({'read': [[p, list(FACTS)] for p, _ in all_nodes(shadow)]})
-      yield {'tree': t, 'steps': steps, 'reads': 'chosen', 'facts_only': True}
+      yield {'tree': t, 'steps': steps, 'reads': 'chosen'}
 
   def facts_cases(self, rng, n):
     g = Gen(rng)
@@ -907,12 +1025,23 @@ class C09(Prop):
     steps = []
     for s_ in case['steps']:
       if 'read' in s_:
-        steps.append({'read': [p for p, names in s_['read'] if 'nondefault' in names]})
-      elif s_['call'].get('skip'):
-        steps.append(dict(s_, notify=False))       # rebind(skip_notification=True): nobody is notified
-      else:
-        steps.append(s_)
-    req = {'op': 'run', 'tree': case['tree'], 'steps': steps}
+        steps.append({'read': [[p] + list(read_flags(names)) for p, names in s_['read'] if any(read_flags(names))]})
+        continue
+      s_ = json.loads(json.dumps(s_))
+      c = s_['call']
+      for fld in ('v',):
+        if fld in c:
+          c[fld] = annotate(c[fld])
+      if 'vs' in c:
+        c['vs'] = [annotate(x) for x in c['vs']]
+      if 'pairs' in c:
+        c['pairs'] = [[p_, annotate(x)] for p_, x in c['pairs']]
+      if 'kvs' in c:
+        c['kvs'] = [[k_, annotate(x)] for k_, x in c['kvs']]
+      if c.get('skip'):
+        s_['notify'] = False                       # rebind(skip_notification=True): nobody is notified
+      steps.append(s_)
+    req = {'op': 'run', 'tree': annotate(case['tree']), 'steps': steps}
     if case.get('reads') == 'chosen':
       req['reads'] = 'chosen'
     return req
@@ -932,6 +1061,7 @@ class C09(Prop):
     for step in case['steps']:
       pre = canon(root)
       del LOG[:]
+      del BOUND[:]
       if 'read' in step:
         outs.append(self.impl_read(case, root, step, pre))
         continue
@@ -949,8 +1079,10 @@ class C09(Prop):
           ok = False
           err = type(e).__name__
       events = canon_log(LOG)
+      bound = list(BOUND)
       if chosen:
-        outs.append({'ok': ok, 'err': err, 'events': events, 'reads': [], 'value': canon(root), 'pre': pre, 'stale': []})
+        outs.append({'ok': ok, 'err': err, 'events': events, 'reads': [], 'value': canon(root), 'pre': pre, 'stale': [],
+                     'bound': bound})
         continue
       got = read_all(root)
       want = recomputed(root)
@@ -964,9 +1096,9 @@ class C09(Prop):
           bad = sorted(k for k in f if f[k] != w[k])
           if bad:
             stale.append([p, bad])
-      with_reads = not case.get('facts_only') and obj_free(case['tree'])
+      with_reads = not case.get('facts_only')
       outs.append({'ok': ok, 'err': err, 'events': events, 'reads': leafmap_reads(root) if with_reads else [],
-                   'value': canon(root), 'pre': pre, 'stale': stale})
+                   'value': canon(root), 'pre': pre, 'stale': stale, 'bound': bound})
     model = {'steps': [{'ok': o['ok'], 'events': o['events'], 'reads': o['reads'], 'value': o['value']} for o in outs]}
     return {'model': model, 'steps': outs}
 
@@ -987,11 +1119,10 @@ class C09(Prop):
       bad = sorted(k for k in got if got[k] != want[k])
       if bad:
         stale.append([path, bad])
-      if ('nondefault' in names and obj_free(case['tree'])
-          and not any(isinstance(m, pg.Object) for _, m in sym_nodes(n))):
-        nd = n.sym_nondefault()
-        reads.append([path, sorted(([pg.KeyPath.parse(k).keys if isinstance(k, str) else [k], x] for k, x in nd.items()),
-                                   key=lambda e: json.dumps(e))])
+      nd_, ms_ = read_flags(names)
+      if (nd_ or ms_) and not case.get('facts_only'):
+        a, b = read_values(n, nd_, ms_)
+        reads.append([path, a, b])
     reads = sorted(reads, key=lambda e: json.dumps(e))
     return {'ok': True, 'err': None, 'events': [], 'reads': reads, 'value': canon(root), 'pre': pre, 'stale': stale}
 
@@ -1000,10 +1131,8 @@ class C09(Prop):
     b = model_out.get('steps') or []
     for i, (x, y) in enumerate(zip(a, b)):
       y = dict(y)
-      y['reads'] = sorted([[p, sorted(m, key=lambda e: json.dumps(e))] for p, m in y['reads']],
-                          key=lambda e: json.dumps(e))
-      if not obj_free(case['tree']):
-        y['reads'] = []          # the model's cache content is the schema-less leaf map only
+      y['reads'] = sorted([[p, sorted(m, key=lambda e: json.dumps(e)), sorted(ms, key=lambda e: json.dumps(e))]
+                           for p, m, ms in y['reads']], key=lambda e: json.dumps(e))
       for fld in ('ok', 'value', 'events', 'reads'):
         if x[fld] != y[fld]:
           return 'step %d (%s) field %s: impl=%s model=%s' % (
@@ -1079,6 +1208,14 @@ class C09(Prop):
       if not CLEAR_NOTIFIES[0]:
         return None
     ids = [e['recv'] for e in events]
+    bound = o.get('bound')
+    if bound is not None:
+      objs = {n['id'] for _, n in all_nodes(tree) if n['sub'] and n['k'] not in ('dict', 'list')}
+      want = sorted(i for i in ids if i in objs)
+      if sorted(bound) != want:
+        return {'signature': 'on-bound-count',
+                'what': 'objects %s received a change event, _on_bound ran for %s (once per event is expected)' % (
+                    want, sorted(bound))}
     if len(set(ids)) != len(ids):
       return {'signature': 'duplicate-event', 'what': 'a receiver got more than one event: %s' % ids}
     sub_nodes = {n['id']: p for p, n in all_nodes(tree) if n['sub']}
